@@ -111,9 +111,16 @@ func judgeBodies(w *proxyWorld, res *Result) {
 			res.violate("C01.d", w.p.Transport+" unattributable", "%d response carries no origin response id (X-Sim-Resp), cannot be one origin response: %s", ex.Status, where)
 			continue
 		}
+		// C01 speaks about responses built from the store; a relayed response is C08's
+		cs := ex.Hdr.Get("Cache-Status")
+		fromStore := strings.Contains(cs, "hit") || strings.Contains(cs, "stored") || (ex.Status == 206 && o.Status == 200)
+		rule := "C01.d"
+		if !fromStore {
+			rule = "C08.a"
+		}
 		want := w.wantedRes(ex)
 		if want >= 0 && o.Res != want {
-			res.violate("C01.d", w.p.Transport+" other-resource", "response to %s is origin response #%d of resource %d: %s", reqDesc(ex), o.N, o.Res, where)
+			res.violate(rule, w.p.Transport+" other-resource", "response to %s is origin response #%d of resource %d: %s", reqDesc(ex), o.N, o.Res, where)
 			continue
 		}
 		exp := o.RespBody
@@ -121,7 +128,7 @@ func judgeBodies(w *proxyWorld, res *Result) {
 		if ex.Status == 206 {
 			cr := contentRangeRe.FindStringSubmatch(ex.Hdr.Get("Content-Range"))
 			if cr == nil {
-				res.violate("C01.d", w.p.Transport+" 206-without-content-range", "206 with Content-Range %q: %s", ex.Hdr.Get("Content-Range"), where)
+				res.violate(rule, w.p.Transport+" 206-without-content-range", "206 with Content-Range %q: %s", ex.Hdr.Get("Content-Range"), where)
 				continue
 			}
 			a, _ := strconv.ParseInt(cr[1], 10, 64)
@@ -129,27 +136,27 @@ func judgeBodies(w *proxyWorld, res *Result) {
 			size, _ := strconv.ParseInt(cr[3], 10, 64)
 			if o.Status == 200 {
 				if size != int64(len(o.RespBody)) || a > b || b >= size {
-					res.violate("C01.d", w.p.Transport+" bad-content-range", "Content-Range %s does not lie inside the %d-byte origin body: %s", cr[0], len(o.RespBody), where)
+					res.violate(rule, w.p.Transport+" bad-content-range", "Content-Range %s does not lie inside the %d-byte origin body: %s", cr[0], len(o.RespBody), where)
 					continue
 				}
 				exp = o.RespBody[a : b+1]
 				kind = "slice"
 			}
 		} else if o.Status != 200 {
-			res.violate("C01.d", w.p.Transport+" status-mismatch", "client got 200 but origin response #%d was %d: %s", o.N, o.Status, where)
+			res.violate(rule, w.p.Transport+" status-mismatch", "client got 200 but origin response #%d was %d: %s", o.N, o.Status, where)
 			continue
 		}
 		if o.Aborted {
-			res.violate("C01.d", w.p.Transport+" aborted-transfer-served", "a completely framed %d was built from origin response #%d whose transfer was aborted: %s", ex.Status, o.N, where)
+			res.violate(rule, w.p.Transport+" aborted-transfer-served", "a completely framed %d was built from origin response #%d whose transfer was aborted: %s", ex.Status, o.N, where)
 			continue
 		}
 		if !bytes.Equal(ex.Body, exp) {
 			d := firstDiff(ex.Body, exp)
-			res.violate("C01.d", w.p.Transport+" "+w.p.Backend+" body-"+kind+"-mismatch", "body (%d bytes) differs from origin response #%d (%d bytes) at byte %d: %s", len(ex.Body), o.N, len(exp), d, where)
+			res.violate(rule, w.p.Transport+" "+w.p.Backend+" body-"+kind+"-mismatch", "body (%d bytes) differs from origin response #%d (%d bytes) at byte %d: %s", len(ex.Body), o.N, len(exp), d, where)
 			continue
 		}
 		if cl := ex.Hdr.Get("Content-Length"); cl != "" && cl != strconv.Itoa(len(ex.Body)) {
-			res.violate("C01.d", w.p.Transport+" content-length", "Content-Length %s but %d body bytes: %s", cl, len(ex.Body), where)
+			res.violate(rule, w.p.Transport+" content-length", "Content-Length %s but %d body bytes: %s", cl, len(ex.Body), where)
 		}
 		for _, k := range []string{"ETag", "Last-Modified", "Content-Type"} {
 			ov := o.RespHdr.Get(k)
@@ -157,30 +164,41 @@ func judgeBodies(w *proxyWorld, res *Result) {
 				continue
 			}
 			if cv := ex.Hdr.Get(k); cv != ov {
-				res.violate("C01.d", w.p.Transport+" mispaired-"+strings.ToLower(k), "%s is %q but origin response #%d carried %q: %s", k, cv, o.N, ov, where)
+				res.violate(rule, w.p.Transport+" mispaired-"+strings.ToLower(k), "%s is %q but origin response #%d carried %q: %s", k, cv, o.N, ov, where)
 			}
 		}
 	}
-	// C01.e: a request that starts after a newer version was stored never gets an older stored body
-	for i, e1 := range w.exch {
+	// C01.e: a request that starts after an entry was replaced never receives the replaced
+	// body. Origin response o2 is known to have been in the store before o1 was even
+	// requested if some client had received o2 by then; once a client has then received o1
+	// from the store (o1 replaced o2), a later-starting request must not be served o2.
+	firstSeen := map[int]int64{}
+	for _, x := range w.exch {
+		if o := w.attrib(x); o != nil && x.Complete && x.RecvSeq > 0 {
+			if cur, ok := firstSeen[o.N]; !ok || x.RecvSeq < cur {
+				firstSeen[o.N] = x.RecvSeq
+			}
+		}
+	}
+	for _, e1 := range w.exch {
 		o1 := w.attrib(e1)
-		if o1 == nil || !e1.Complete || e1.Status != 200 || e1.Method != "GET" {
+		if o1 == nil || !e1.Complete || e1.Status != 200 || e1.Method != "GET" || o1.Status != 200 {
 			continue
 		}
 		cs1 := e1.Hdr.Get("Cache-Status")
 		if !strings.Contains(cs1, "stored") && !strings.Contains(cs1, "hit") {
 			continue
 		}
-		for _, e2 := range w.exch[i+1:] {
+		for _, e2 := range w.exch {
 			if e2.SendSeq < e1.RecvSeq || !e2.Complete || e2.Status != 200 || e2.Method != "GET" || e2.Req.Range != "" {
 				continue
 			}
 			o2 := w.attrib(e2)
-			if o2 == nil || o2.Res != o1.Res || label(e2) != "HIT" {
+			if o2 == nil || o2.N == o1.N || o2.Res != o1.Res || e1.Req.Res != e2.Req.Res || label(e2) != "HIT" {
 				continue
 			}
-			if o2.N < o1.N && o2.Ver != o1.Ver {
-				res.violate("C01.e", w.p.Transport+" "+w.p.Backend+" replaced-body-served", "%s (sent after %s had received stored origin response #%d, version %d) was served the replaced response #%d, version %d [%s]", reqDesc(e2), reqDesc(e1), o1.N, o1.Ver, o2.N, o2.Ver, planDesc(w.p))
+			if seen, ok := firstSeen[o2.N]; ok && seen < o1.Seq {
+				res.violate("C01.e", w.p.Transport+" "+w.p.Backend+" replaced-body-served", "%s (sent after %s had received origin response #%d, version %d, from the store) was served response #%d, version %d, which had been stored before #%d was requested and was therefore replaced by it [%s]", reqDesc(e2), reqDesc(e1), o1.N, o1.Ver, o2.N, o2.Ver, o1.N, planDesc(w.p))
 			}
 		}
 	}
@@ -542,6 +560,8 @@ func judgeProxy(w *proxyWorld, res *Result) {
 	switch w.p.Family {
 	case "seq":
 		judgeSequential(w, res)
+	case "coal", "trouble":
+		judgeConcurrent(w, res)
 	}
 	for _, ex := range w.exch {
 		if ex.Complete {
@@ -559,4 +579,183 @@ func judgeProxy(w *proxyWorld, res *Result) {
 	if res.Probes["label_hit"] > 0 || res.Probes["label_revalidated"] > 0 {
 		res.Nontrivial = true
 	}
+}
+
+// ---------------------------------------------------------------------------
+// concurrent families: C05 (coalescing), C09 (cache-side trouble)
+
+func judgeConcurrent(w *proxyWorld, res *Result) {
+	p := w.p
+	pd := planDesc(p)
+	allOriginOK := true
+	for _, o := range w.olog {
+		if o.Status >= 400 || o.Aborted || o.Res < 0 {
+			allOriginOK = false
+		}
+	}
+	disconnects := 0
+	evicts := 0
+	for _, cl := range p.Clients {
+		for _, q := range cl {
+			if q.Disconnect != 0 {
+				disconnects++
+			}
+			if q.Evict {
+				evicts++
+			}
+		}
+	}
+	// C09.a / C05.b / C05.c / C05.d: every surviving client gets the origin's answer
+	for _, ex := range w.exch {
+		if ex.Req.Evict || ex.Req.Raw != "" || ex.Disconnected || !ex.Sent {
+			continue
+		}
+		res.Evals++
+		desc := reqDesc(ex)
+		if !allOriginOK {
+			continue
+		}
+		rule, subj := "C09.a", ""
+		if p.Family == "coal" {
+			rule = "C05.b"
+			if disconnects > 0 {
+				rule = "C05.c"
+			}
+			if uncacheable(&p.Res[ex.Req.Res]) {
+				rule = "C05.d"
+			}
+		}
+		ctx := troubleContext(w, p, disconnects, evicts)
+		switch {
+		case ex.TunnelFail != "":
+			subj = "tunnel-failed"
+			res.violate(rule, subj+" "+ctx, "%s: tunnel could not be established (%s) although the origin answered every request successfully [%s]", desc, ex.TunnelFail, pd)
+		case !ex.Complete:
+			res.violate(rule, "dropped-connection "+ctx, "%s: no complete response (%s; status %d, %d body bytes) although the origin answered every request successfully [%s]", desc, ex.Err, ex.Status, len(ex.Body), pd)
+		case ex.Status >= 500:
+			res.violate(rule, fmt.Sprintf("error-status-%d %s", ex.Status, ctx), "%s: client received %d %q although the origin answered every request successfully [%s]", desc, ex.Status, strings.TrimSpace(string(ex.Body[:min(len(ex.Body), 80)])), pd)
+		case ex.Status >= 400 && !(ex.Status == 416 && ex.Req.Range != ""):
+			res.violate(rule, fmt.Sprintf("error-status-%d %s", ex.Status, ctx), "%s: client received %d although the origin answered every request successfully [%s]", desc, ex.Status, pd)
+		}
+	}
+	if p.Family != "coal" {
+		return
+	}
+	// C05.a: one origin fetch per resource
+	for ri := range p.Res {
+		r := &p.Res[ri]
+		if uncacheable(r) || r.Wild {
+			continue
+		}
+		var reqs []*OLog
+		for _, o := range w.olog {
+			if o.Res == ri {
+				reqs = append(reqs, o)
+			}
+		}
+		// requests by phase: a warm-up request (AtMs==0 by client 0 when others start later) counts separately
+		phases := map[int64][]*OLog{}
+		var phaseStart []int64
+		seen := map[int64]bool{}
+		for _, cl := range p.Clients {
+			for _, q := range cl {
+				if q.Res == ri && !q.Evict && !seen[q.AtMs] {
+					seen[q.AtMs] = true
+					phaseStart = append(phaseStart, q.AtMs)
+				}
+			}
+		}
+		sortInt64(phaseStart)
+		for _, o := range reqs {
+			ph := phaseStart[0]
+			for _, s := range phaseStart {
+				if !o.T.Before(w.start.Add(time.Duration(s) * time.Millisecond)) {
+					ph = s
+				}
+			}
+			phases[ph] = append(phases[ph], o)
+		}
+		if evicts > 0 || !allOriginOK {
+			continue
+		}
+		res.Evals++
+		for ph, os := range phases {
+			allowed := 1
+			if disconnects > 0 {
+				allowed = 1 + disconnects
+			}
+			if len(os) > allowed {
+				var ds []string
+				for _, o := range os {
+					c := ""
+					if o.Cond {
+						c = "(conditional)"
+					}
+					ds = append(ds, fmt.Sprintf("#%d@step%d%s", o.N, o.Step, c))
+				}
+				rule := "C05.a"
+				if disconnects > 0 {
+					rule = "C05.c"
+				}
+				res.violate(rule, fmt.Sprintf("origin-fetches>%d %s", allowed, w.p.Transport), "resource %d: %d origin requests (%s) in the phase starting at +%dms, expected at most %d [%s]", ri, len(os), strings.Join(ds, " "), ph, allowed, pd)
+			}
+		}
+	}
+	// probes
+	maxWait := 0
+	for _, o := range w.olog {
+		n := 0
+		for _, ex := range w.exch {
+			if ex.Sent && ex.SendSeq < o.Seq && (ex.RecvSeq == 0 || ex.RecvSeq > o.DoneSeq) {
+				n++
+			}
+		}
+		if n > maxWait {
+			maxWait = n
+		}
+	}
+	if maxWait >= 3 {
+		res.Probes["three_or_more_clients_waiting_on_one_fetch"]++
+	}
+	if maxWait >= 2 {
+		res.Probes["two_or_more_clients_waiting_on_one_fetch"]++
+		res.Nontrivial = true
+	}
+}
+
+func uncacheable(r *PRes) bool {
+	d := refParse(http.Header{"Cache-Control": r.CC})
+	return d.NoStore || d.NoCache || d.Private || d.MaxAge == 0 || (r.Status != 0 && r.Status != 200)
+}
+
+// troubleContext names the cache-side condition of the plan (for known-finding matching).
+func troubleContext(w *proxyWorld, p *ProxyPlan, disconnects, evicts int) string {
+	var c []string
+	c = append(c, p.Transport, p.Backend)
+	maxBody := 0
+	zero := false
+	for _, r := range p.Res {
+		if r.Size > maxBody {
+			maxBody = r.Size
+		}
+		if r.Size == 0 {
+			zero = true
+		}
+	}
+	if p.MaxSize < int64(4*maxBody) {
+		c = append(c, "cache-nearly-full")
+	}
+	if zero {
+		c = append(c, "empty-body")
+	}
+	if disconnects > 0 {
+		c = append(c, "client-disconnect")
+	}
+	if evicts > 0 {
+		c = append(c, "entry-evicted")
+	}
+	if w.res.Faults["disk_short_write"] > 0 {
+		c = append(c, "disk-write-fails")
+	}
+	return strings.Join(c, ",")
 }
